@@ -119,7 +119,7 @@ def _worker(task):
             res["inconclusive"].append(f"step budget exceeded ({pr.value})")
         viols = classify(h, pr)
         for label, detail in viols:
-            out = api.run_native(h, params, pr.inputs, measure=(label == "budget"))
+            out = api.run_native(h, params, pr.inputs, measure=(label == "budget"), big=True)
             res["violations"].append(dict(label=label, detail=detail, inputs=pr.inputs, confirmed=native_confirms(h, label, out),
                                           native=repr(out)[:300]))
         had_check_violation = any(v == "violated" for _, v in pr.checks)
@@ -391,7 +391,7 @@ def replay(prop, path):
     h = next(x for x in api.HARNESSES[prop] if x.name == d["harness"])
     jobs = h.jobs(d.get("tier", "quick"))
     params = jobs[d["pidx"]]
-    out = api.run_native(h, params, d["inputs"], measure=(d["label"] == "budget"))
+    out = api.run_native(h, params, d["inputs"], measure=(d["label"] == "budget"), big=True)
     print("replay:", d["harness"], d["label"], "->", out)
     if native_confirms(h, d["label"], out):
         print(f"VIOLATION property={prop} replay={path}")
